@@ -2,7 +2,7 @@
    replacing a digit by a digit, a hex letter a-f (A-F) by another one, another lower (upper) case letter by another
    one, and any other unreserved byte by another one leaves getStrCharsSig - for any skipped region - unchanged;
    reserved characters (at dot colon dash underscore star plus slash equals bar) count as themselves. *)
-From Sipsp Require Import Driver Harness StrSig.
+From Sipsp Require Import Driver Harness StrSig TokSpec TokEoi CmpRender.
 From Coq Require Import ZifyN ZifyNat ZifyBool.
 From RecordUpdate Require Import RecordUpdate.
 
@@ -93,4 +93,78 @@ Proof.
   intros H. unfold callid_sig_at.
   assert (Hl : length s = length s') by (rewrite <- (map_length bclass s), H, map_length; reflexivity).
   rewrite Hl, (str_chars_sig_classes s s' io il H). reflexivity.
+Qed.
+
+(* ---- the Via branch: the first parameter named branch supplies the text; its classes decide ------------------------------------------------ *)
+Definition branch_res (val : list byte) : N * N :=
+  if (7 <? nnat (length val)) && eqb_nocase (firstn 7 val) str_brprefix then (str_sig0 (skipn 7 val), nnat (length val) - 7)
+  else (str_sig0 val, nnat (length val)).
+Lemma index_of_app c : forall (host rest : list byte) i, Forall (fun d => (d =? c) = false) host -> index_of c (host ++ c :: rest) i = Some (i + nnat (length host)).
+Proof.
+  induction host as [|d host IH]; intros rest i H.
+  - cbn [app index_of length]. rewrite N.eqb_refl. f_equal. unfold nnat. lia.
+  - inversion H as [|? ? Hd Hh]; subst. cbn [app index_of]. rewrite Hd, IH by exact Hh. f_equal. cbn [length]. unfold nnat. lia.
+Qed.
+Lemma bget_some buf (P M S : list byte) o n : buf = P ++ M ++ S -> o = nnat (length P) -> n = nnat (length M) -> bget buf (mkpf o n) = Some M.
+Proof.
+  intros -> -> ->. unfold bget, zget, pf_end. cbn [po pl]. exact (NameAddrSpec.zslice_mid [] (P ++ M ++ S) 0 P M S eq_refl eq_refl).
+Qed.
+Lemma branch_plain : plain viabr_flags 98 /\ Forall (plain viabr_flags) [114; 97; 110; 99; 104].
+Proof. split; [|repeat constructor]; vm_compute; repeat split; reflexivity. Qed.
+(* host-part ";branch=" value, the value running to the end of the Via text *)
+Theorem viabr_branch_last (host : list byte) v0 value : Forall (fun d => (d =? 59) = false) host -> plain viabr_flags v0 -> Forall (plain viabr_flags) value ->
+  viabr_sig_len (host ++ (59 : byte) :: str_branch ++ (61 : byte) :: v0 :: value) = Some (branch_res (v0 :: value)).
+Proof.
+  intros Hh Hv0 Hval. unfold viabr_sig_len. rewrite (index_of_app 59 host _ 0 Hh). cbn [length viabr_loop].
+  set (junk := host ++ [(59 : byte)]).
+  assert (Eb : host ++ (59 : byte) :: str_branch ++ (61 : byte) :: v0 :: value = junk ++ str_branch ++ (61 : byte) :: v0 :: value)
+    by (subst junk; rewrite <- app_assoc; reflexivity).
+  rewrite Eb. replace (0 + nnat (length host) + 1) with (nnat (length junk)) by (subst junk; rewrite app_length; cbn [length]; unfold nnat; lia).
+  destruct branch_plain as [B0 B1].
+  pose proof (tp_spec_eoi_at viabr_flags junk 98 [114; 97; 110; 99; 104] v0 value B0 B1 Hv0 Hval eq_refl) as T. cbv zeta in T.
+  match type of T with _ = ?R => match goal with |- context [parse_tokparam ?a ?b ?c ?d] => replace (parse_tokparam a b c d) with R by (symmetry; exact T) end end. clear T.
+  cbn [tp_name tp_val pl po].
+  repeat match goal with |- context [bget ?B (mkpf ?o (nnat (length ?l)))] =>
+    replace (bget B (mkpf o (nnat (length l)))) with (Some str_branch)
+      by (symmetry; apply (bget_some B junk str_branch ((61 : byte) :: v0 :: value)); reflexivity) end.
+  match goal with |- context [bget ?B (mkpf ?o ?n)] =>
+    replace (bget B (mkpf o n)) with (Some (v0 :: value))
+      by (symmetry; apply (bget_some B (junk ++ str_branch ++ [(61 : byte)]) (v0 :: value) []);
+          [rewrite app_nil_r, <- !app_assoc; reflexivity|rewrite !app_length; unfold str_branch; cbn [length]; unfold nnat; lia|reflexivity]) end.
+  replace (0 <? nnat (length (v0 :: value))) with true by (cbn [length]; unfold nnat; lia).
+  match goal with |- context [nnat (length ?l) =? 6] => replace (nnat (length l) =? 6) with true by reflexivity end.
+  replace (eqb_nocase str_branch str_branch) with true by reflexivity. cbn [andb]. unfold branch_res. destruct (_ && _); reflexivity.
+Qed.
+(* followed by another parameter *)
+Theorem viabr_branch_then_more (host : list byte) v0 value c tail : Forall (fun d => (d =? 59) = false) host -> plain viabr_flags v0 -> Forall (plain viabr_flags) value -> plain viabr_flags c ->
+  viabr_sig_len (host ++ (59 : byte) :: str_branch ++ (61 : byte) :: (v0 :: value) ++ (59 : byte) :: c :: tail) = Some (branch_res (v0 :: value)).
+Proof.
+  intros Hh Hv0 Hval Hc. unfold viabr_sig_len. rewrite (index_of_app 59 host _ 0 Hh). cbn [length viabr_loop].
+  set (junk := host ++ [(59 : byte)]).
+  assert (Eb : host ++ (59 : byte) :: str_branch ++ (61 : byte) :: (v0 :: value) ++ (59 : byte) :: c :: tail
+               = junk ++ str_branch ++ (61 : byte) :: (v0 :: value) ++ (59 : byte) :: c :: tail)
+    by (subst junk; rewrite <- app_assoc; reflexivity).
+  rewrite Eb. replace (0 + nnat (length host) + 1) with (nnat (length junk)) by (subst junk; rewrite app_length; cbn [length]; unfold nnat; lia).
+  destruct branch_plain as [B0 B1].
+  pose proof (tp_spec_more_at viabr_flags junk 98 [114; 97; 110; 99; 104] v0 value c tail B0 B1 Hv0 Hval Hc) as T. cbv zeta in T.
+  match type of T with _ = ?R => match goal with |- context [parse_tokparam ?a ?b ?c ?d] => replace (parse_tokparam a b c d) with R by (symmetry; exact T) end end. clear T.
+  cbn [tp_name tp_val pl po].
+  repeat match goal with |- context [bget ?B (mkpf ?o (nnat (length ?l)))] =>
+    replace (bget B (mkpf o (nnat (length l)))) with (Some str_branch)
+      by (symmetry; apply (bget_some B junk str_branch ((61 : byte) :: (v0 :: value) ++ (59 : byte) :: c :: tail)); reflexivity) end.
+  match goal with |- context [bget ?B (mkpf ?o ?n)] =>
+    replace (bget B (mkpf o n)) with (Some (v0 :: value))
+      by (symmetry; apply (bget_some B (junk ++ str_branch ++ [(61 : byte)]) (v0 :: value) ((59 : byte) :: c :: tail));
+          [rewrite <- !app_assoc; reflexivity|rewrite !app_length; unfold str_branch; cbn [length]; unfold nnat; lia|reflexivity]) end.
+  replace (0 <? nnat (length (v0 :: value))) with true by (cbn [length]; unfold nnat; lia).
+  match goal with |- context [nnat (length ?l) =? 6] => replace (nnat (length l) =? 6) with true by reflexivity end.
+  replace (eqb_nocase str_branch str_branch) with true by reflexivity. cbn [andb]. unfold branch_res. destruct (_ && _); reflexivity.
+Qed.
+(* so the branch signature depends on the classes of the branch text after the RFC 3261 prefix *)
+Theorem branch_res_classes val val' : firstn 7 val = firstn 7 val' -> map bclass (skipn 7 val) = map bclass (skipn 7 val') -> map bclass val = map bclass val' ->
+  branch_res val = branch_res val'.
+Proof.
+  intros Hp Hs Ha. unfold branch_res.
+  assert (Hl : length val = length val') by (rewrite <- (map_length bclass val), Ha, map_length; reflexivity).
+  rewrite Hl, Hp, (from_tag_sig_classes _ _ Hs), (from_tag_sig_classes _ _ Ha). reflexivity.
 Qed.
